@@ -54,6 +54,8 @@ def check(prog, rep, tier):
                       'table (no KeyError for legal values outside it)')
     rep.rule('R06.l', 'trailing-bit mask of the prefix decoders: for remainder r = 1..7 the mask keeps exactly the top r '
                       'bits of the last received octet (a wrong mask changes the prefix that comes back)')
+    rep.rule('R06.m', 'decoder loops run while a whole element remains: a test len(cursor) > K must not stop while the '
+                      'smallest element (a zero-length attribute is 3 octets) still fits')
     rep.assumptions += ['equality of decoded and given values for concrete inputs is not decided (round-trip '
                         'equality over the value space is not a static property)']
 
@@ -77,6 +79,11 @@ def check(prog, rep, tier):
         present = ' '.join(BL._pdesc(p) if hasattr(BL, '_pdesc') else str(p) for p in BL.flatten(v))
         txt = v.desc()
         for a in built:
+            if a.meth == 'construct_prefix_v4' and a.args:
+                d0 = a.args[0].desc() if hasattr(a.args[0], 'desc') else str(a.args[0])
+                if not (d0.startswith(f.params[1] + '[') or d0.startswith(f.params[1] + '.get(')):
+                    bad = bad or ('construct_prefix_v4 at line %s is given %s, not the prefix list of the request: '
+                                  'prefixes can be dropped or altered before they are encoded' % (a.line, d0), s)
             # the unique opaque value of this call carries '<callee>()#<n>@<line>'
             tag = '%s.%s()#' % (a.target, a.meth)
             hits = [seg for seg in txt.split('<') if tag in seg and '@%s' % a.line in seg]
@@ -130,6 +137,25 @@ def check(prog, rep, tier):
             rep.ok('R06.i', key, file=fn.file, line=fn.node.lineno, found='both forms reached')
         else:
             rep.undecided('R06.i', key, file=fn.file, line=fn.node.lineno, found='forms reached: %s' % sorted(seenb))
+
+    # ---------------------------------------------------------------- R06.m
+    from .c15 import loop_threshold_problem, cursor_names
+    nlp = 0
+    for fn in prog.all_functions():
+        if not ((fn.module.name.startswith('yabgp.message.attribute') and '.nlri' not in fn.module.name
+                 and '.linkstate' not in fn.module.name and '.sr' not in fn.module.name)
+                or fn.module.name == 'yabgp.message.update') or not fn.name.startswith('parse'):
+            continue
+        for i_, w_ in enumerate(sorted([n for n in ast.walk(fn.node) if isinstance(n, ast.While)], key=lambda n: n.lineno)):
+            nlp += 1
+            thr = loop_threshold_problem(w_, cursor_names(w_))
+            key = 'loop-threshold:%s#%d' % (fn.qualname, i_)
+            if thr:
+                rep.bad('R06.m', key, file=fn.file, line=w_.lineno, func=fn.qualname, found=thr,
+                        expected='continue while a whole element remains', key=key)
+    if not any(i.rule == 'R06.m' for i in rep.instances):
+        rep.ok('R06.m', 'loop-thresholds', found='%d decoder loops' % nlp)
+    rep.floor('R06.m', 'decoder loops', nlp, 8)
 
     # ---------------------------------------------------------------- R06.l
     from .c09 import mask_rule
